@@ -40,6 +40,7 @@ type evView struct {
 
 type txView struct {
 	Dec, Eth, Ext bool
+	BadPayload    bool // Ethereum-lane wrapper whose MarshalledTx is not a decodable Ethereum transaction (hash/gas/nonce unknown: 0)
 	Hash          common.Hash
 	Gas           uint64
 	From          common.Address
@@ -69,15 +70,18 @@ func (w *world) projectTx(raw []byte, res *abci.ExecTxResult) txView {
 		if len(msgs) == 1 {
 			if m, ok := msgs[0].(*evmtypes.MsgEthereumTx); ok {
 				v.Eth = true
-				etx := m.AsTransaction()
-				v.Hash = etx.Hash()
-				v.Gas = etx.Gas()
-				v.Nonce = etx.Nonce()
+				if etx := payloadOf(m); etx != nil {
+					v.Hash = etx.Hash()
+					v.Gas = etx.Gas()
+					v.Nonce = etx.Nonce()
+					if s, err := ethtypes.Sender(w.c.S.EthSigner, etx); err == nil {
+						v.Signer = s
+					}
+				} else {
+					v.BadPayload = true
+				}
 				if acc, err := sdk.AccAddressFromBech32(m.From); err == nil {
 					v.From = common.BytesToAddress(acc)
-				}
-				if s, err := ethtypes.Sender(w.c.S.EthSigner, etx); err == nil {
-					v.Signer = s
 				}
 				v.Ext = true
 				if ext, ok := tx.(authante.HasExtensionOptionsTx); ok {
@@ -199,6 +203,9 @@ func (v txView) class() string {
 		}
 		return "eth_admitted_failed_in_transition"
 	default:
+		if v.BadPayload {
+			return "eth_undecodable_payload_rejected_by_ante"
+		}
 		if v.Code == 11 {
 			return "eth_dropped_before_ante"
 		}
